@@ -51,6 +51,7 @@ type fnResult struct {
 type analysis struct {
 	c        *ctx
 	f        *ssa.Function
+	fnArgs   []*ssa.Function // per parameter: the function constant bound to a function-typed parameter in this context
 	argK     []kind
 	guess    map[*ssa.Phi]kind
 	kinds    map[ssa.Value]kind
@@ -440,6 +441,16 @@ func (a *analysis) call(c *ssa.Call) kind {
 		ks = append(ks, a.kAt(x, blk))
 	}
 	callee := c.Call.StaticCallee()
+	if callee == nil {
+		// a function-typed parameter bound to a function constant in this calling context
+		if p, ok := c.Call.Value.(*ssa.Parameter); ok {
+			for i, q := range a.f.Params {
+				if q == p && i < len(a.fnArgs) && a.fnArgs[i] != nil {
+					callee = a.fnArgs[i]
+				}
+			}
+		}
+	}
 	name := ""
 	if callee != nil {
 		name = callee.String()
@@ -511,7 +522,31 @@ func (a *analysis) call(c *ssa.Call) kind {
 	if k, ok := a.c.selectorKind(callee, ks); ok {
 		return k
 	}
-	r := a.c.analyse(callee, ks)
+	// function constants passed for function-typed parameters become part of the callee's context
+	var fns []*ssa.Function
+	for i, x := range c.Call.Args {
+		var g *ssa.Function
+		switch y := x.(type) {
+		case *ssa.Function:
+			g = y
+		case *ssa.ChangeType:
+			g, _ = y.X.(*ssa.Function)
+		case *ssa.Parameter:
+			// handed on from this function's own context
+			for j, q := range a.f.Params {
+				if q == y && j < len(a.fnArgs) {
+					g = a.fnArgs[j]
+				}
+			}
+		}
+		if g != nil {
+			if fns == nil {
+				fns = make([]*ssa.Function, len(c.Call.Args))
+			}
+			fns[i] = g
+		}
+	}
+	r := a.c.analyseCtx(callee, ks, fns)
 	a.handover = append(a.handover, r.handover...)
 	if r.ret == kTop {
 		a.why = append(a.why, fmt.Sprintf("callee %s is TOP: %v", callee.Name(), r.why))
@@ -697,7 +732,16 @@ func hasPhi(b *ssa.BasicBlock) bool {
 }
 
 func (c *ctx) analyse(f *ssa.Function, argK []kind) fnResult {
+	return c.analyseCtx(f, argK, nil)
+}
+
+func (c *ctx) analyseCtx(f *ssa.Function, argK []kind, fns []*ssa.Function) fnResult {
 	key := f.String() + fmt.Sprint(argK)
+	for i, g := range fns {
+		if g != nil {
+			key += fmt.Sprintf("|%d=%s", i, g.String())
+		}
+	}
 	if r, ok := c.memo[key]; ok {
 		return r
 	}
@@ -721,8 +765,9 @@ func (c *ctx) analyse(f *ssa.Function, argK []kind) fnResult {
 		c.memo[key] = res
 		return res
 	}
-	a := &analysis{c: c, f: f, argK: argK, guess: map[*ssa.Phi]kind{}, tainted: map[*ssa.Phi]bool{}, sofSrc: map[ssa.Value]ssa.Value{}}
-	for iter := 0; iter < 10; iter++ {
+	a := &analysis{c: c, f: f, argK: argK, fnArgs: fns, guess: map[*ssa.Phi]kind{}, tainted: map[*ssa.Phi]bool{}, sofSrc: map[ssa.Value]ssa.Value{}}
+	converged := false
+	for iter := 0; iter < 40; iter++ {
 		a.kinds = map[ssa.Value]kind{}
 		a.changed = false
 		a.why, a.handover = nil, nil
@@ -778,10 +823,18 @@ func (c *ctx) analyse(f *ssa.Function, argK []kind) fnResult {
 		}
 		a.tainted = nt
 		if !a.changed && same {
+			converged = true
 			break
 		}
-	}
-	overall := kStable
+		}
+		if !converged {
+		// the phi classification did not reach a fixpoint: nothing may be concluded from the last guesses
+		res.ret = kTop
+		res.why = append(res.why, f.Name()+": classification of loop-carried values did not converge")
+		c.memo[key] = res
+		return res
+		}
+		overall := kStable
 	for _, b := range f.Blocks {
 		last := b.Instrs[len(b.Instrs)-1]
 		switch t := last.(type) {
